@@ -103,7 +103,7 @@ func (w *world) syncModel(srcID string, transform func(old *simfs.Node) *simfs.N
 		if err != nil || sn.Original == "" {
 			continue
 		}
-		if sn.Original == origin {
+		if sn.Original == origin || sn.Original == src.ID {
 			root := src.Root
 			if transform != nil {
 				root = transform(root)
